@@ -205,6 +205,8 @@ func verifyFunction(prog *Program, db *SpecDB, con *Contract) (res *FuncResult) 
 	if len(f.rets) == 0 {
 		vc.unsupported = append(vc.unsupported, "function has no reachable return")
 	}
+	vc.finalizeAxioms()
+	vc.finalizeAxioms()
 	res.Obligations = vc.obls
 	return
 }
